@@ -228,6 +228,22 @@ def ignore_lf_rule(ctx, rule, which):
         handles = any("self.ignore_lf" in pc["guards"] for pc in eat)
         reach = _eat_reachable_with_pending_cr(T, which)
         ok = handles or not reach
+        # ... and it resolves it completely: once the next character is known the flag is cleared whether or not that
+        # character is the LF (a flag left set after the lookahead swallows a later, unrelated LF uncounted)
+        if handles:
+            def next_known(pc):
+                # the next character is known: peek() gave Some, or the comparison itself saw input (input.eat() answered) while
+                # peek() was not established to be None (an empty queue cannot answer)
+                g = pc["guards"]
+                if any(v and g2.startswith("self.peek() matches Some") for g2, v in g.items()):
+                    return True
+                peek_none = any((not v) and re.fullmatch(r"self\.peek\(\) matches Some\(_\)(#\d+)?", g2) for g2, v in g.items())
+                return (not peek_none) and any(v and g2.startswith("input.eat() matches Some") for g2, v in g.items())
+            left = [pc for pc in eat if pc["guards"].get("self.ignore_lf") is True and next_known(pc)
+                    and not any(a == "set self.ignore_lf" and args == ("false",) for a, args in pc["actions"])]
+            ctx.ob(rule, "eat-clears-pending-cr-once-next-char-known/%s" % which, not left,
+                   "with a pending CR and a known next character eat() always clears ignore_lf" if not left else
+                   "eat() leaves ignore_lf set although the next character is known (it clears it only for some characters): after the lookahead a later LF is dropped and not counted", "%s tokenizer eat" % which)
         ctx.ob(rule, "eat-resolves-pending-cr/%s" % which, ok,
                "eat() looks ahead in the raw input without resolving a pending CR, and state(s) %s call eat() right after consuming a folded line break" % ", ".join(sorted(reach)[:4]) if not ok
                else ("eat() tests ignore_lf first" if handles else "no state can reach eat() with a pending CR"), "%s tokenizer eat" % which)
